@@ -1332,7 +1332,17 @@ class Lattice:
                 return [], [], coupling_shape
             else:
                 return [], np.array([])
-        lat_indices = np.indices(coupling_shape).reshape([1, self.dim, -1]).transpose([2, 0, 1])
+        box_positions = list(coupling_shape)
+        extra_x = 0
+        if self.bc_shift is not None and self.bc[0]:
+            # open boundaries along x, shifted boundaries in other directions: going around the latter moves
+            # a site along x, possibly back into the lattice. Hence try further positions of the box along x
+            # to find the same couplings as `possible_couplings`; `keep` below filters the valid ones.
+            box = np.max(dx[0], axis=0) - np.min(dx[0], axis=0)
+            extra_x = int(np.sum(np.abs(self.bc_shift) * ((Ls + box - 1) // Ls)[1:]))
+            box_positions[0] += 2 * extra_x
+        lat_indices = np.indices(box_positions).reshape([1, self.dim, -1]).transpose([2, 0, 1])
+        lat_indices[:, :, 0] -= extra_x
         lat_ijkl_shifted = lat_indices + (dx - shift_lat_indices)
         lat_ijkl = np.mod(lat_ijkl_shifted, Ls)
         if self.bc_shift is not None:
@@ -1340,7 +1350,7 @@ class Lattice:
             lat_ijkl_shifted[:, :, 0] -= shift
             lat_ijkl[:, :, 0] = np.mod(lat_ijkl_shifted[:, :, 0], Ls[0])
         keep = self._keep_possible_multi_couplings(lat_ijkl, lat_ijkl_shifted, u)
-        lat_indices = lat_indices[keep, 0, :]  # make 2D as to be returned
+        lat_indices = np.mod(lat_indices[keep, 0, :], coupling_shape)  # make 2D as to be returned
         lat_ijkl = lat_ijkl[keep, :, :]
         u = np.broadcast_to(u, lat_ijkl.shape[:2] + (1,))
         mps_ijkl = self.lat2mps_idx(np.concatenate([lat_ijkl, u], axis=2))
